@@ -36,6 +36,7 @@ import (
 	"path/filepath"
 	"strings"
 	"sync"
+	"sync/atomic"
 	"time"
 
 	"golang.org/x/crypto/chacha20poly1305"
@@ -121,12 +122,19 @@ type env struct {
 	readDone chan struct{}
 	release  chan struct{}
 
-	// ICMP pseudo exit
-	imu      sync.Mutex
+	// harness exit end (ICMP always, UDP while pseudoUDP is set)
+	pseudoUDP atomic.Bool
+	respKeys  func() (priv, pub [32]byte)
+	udpKey    *crypto.SessionKey
+	udpGot    [][]byte
+	imu       sync.Mutex
 	icmpKey  *crypto.SessionKey
 	icmpGot  [][]byte
 	icmpSID  uint64
 	icmpOpen chan struct{}
+
+	// optional blocking hook run inside the tap (writer's goroutine)
+	gate atomic.Pointer[func(tunnelmesh.FrameEvent)]
 
 	coq []string
 }
@@ -419,6 +427,10 @@ func main() {
 			run("udp", e.udpTunnel)
 		case "udp-race":
 			run("udp-race", e.udpRace)
+		case "zero-byte-keys":
+			run("zero-byte-keys", e.zeroByteKeys)
+		case "ws-icmp-close":
+			run("ws-icmp-close", e.wsICMPCloseRace)
 		case "file-race":
 			run("race-file-download", e.fileRace)
 		case "stream-race":
@@ -458,6 +470,8 @@ func main() {
 		}
 	}
 	run("race-file-download", e.fileRace)
+	run("zero-byte-keys", e.zeroByteKeys)
+	run("ws-icmp-close", e.wsICMPCloseRace)
 	n := c.N(14, 120)
 	for i := 0; i < n; i++ {
 		run("tcp", func() { e.streamTunnel("tcp") })
@@ -484,6 +498,10 @@ func (e *env) writeCases() {
 func (e *env) tapAll(ev tunnelmesh.FrameEvent) {
 	e.rec.tap(ev)
 	e.icmpTap(ev)
+	e.udpPseudoTap(ev)
+	if g := e.gate.Load(); g != nil {
+		(*g)(ev)
+	}
 }
 
 // ---------------------------------------------------------------------------
@@ -935,7 +953,23 @@ func keyPairFor(req uint64) (initiator, responder *crypto.SessionKey) {
 // ICMP with the harness as the exit end behind the C -> D link
 
 func (e *env) icmpFilter(ev tunnelmesh.FrameEvent) bool {
+	if ev.From == 2 && ev.To == 3 && e.pseudoUDP.Load() && (ev.Type == fUDPOpen || ev.Type == fUDPDatagram || ev.Type == 0x34) {
+		return true
+	}
 	return ev.From == 2 && ev.To == 3 && (ev.Type == fICMPOpen || ev.Type == fICMPEcho || ev.Type == fICMPClose)
+}
+
+// responderKeypair: the ephemeral pair the harness exit end answers with
+// (random unless a sweep installed a chooser).
+func (e *env) responderKeypair() (priv, pub [32]byte) {
+	e.imu.Lock()
+	f := e.respKeys
+	e.imu.Unlock()
+	if f != nil {
+		return f()
+	}
+	priv, pub, _ = crypto.GenerateEphemeralKeypair()
+	return
 }
 
 func (e *env) icmpTap(ev tunnelmesh.FrameEvent) {
@@ -948,7 +982,7 @@ func (e *env) icmpTap(ev tunnelmesh.FrameEvent) {
 		if err != nil {
 			return
 		}
-		priv, pub, _ := crypto.GenerateEphemeralKeypair()
+		priv, pub := e.responderKeypair()
 		shared, err := crypto.ComputeECDH(priv, open.EphemeralPubKey)
 		if err != nil {
 			return
@@ -970,9 +1004,12 @@ func (e *env) icmpTap(ev tunnelmesh.FrameEvent) {
 		if key == nil {
 			return
 		}
-		pt, err := key.Decrypt(echo.Data)
-		if err != nil {
-			e.c.Fail("payload-not-sealed:icmp", "the echo request did not open under the key agreed with the ingress: "+err.Error(), nil)
+		// ICMP_ECHO frames take the transits' parallel fast lane and may arrive in
+		// any order: open with the raw AEAD, not with SessionKey.Decrypt (which
+		// refuses counters older than the last one)
+		pt, ok := aeadOpen([]keyRec{{key: key.VerifKeyBytes()}}, echo.Data)
+		if !ok {
+			e.c.Fail("payload-not-sealed:icmp", "an echo request does not open under the key agreed with the ingress", nil)
 			return
 		}
 		e.imu.Lock()
